@@ -18,7 +18,7 @@ CLAIMS = {
     'C02': dict(level='other', technique=TECH_TABLE + '; Fig.4 parent-case table and hole/parent pairing on MIR paths',
         text='Decides the transition table of coincident twins, the four parent cases of Contour::initialize_from_context with the hole_of/hole_ids '
              'pairing, the polygon assembly (exterior filter, rings from own points/hole_ids; closure or loop form), the prev_in_result table, which events '
-             'are walked (16-row table), the pairing by other_pos, the per-vertex cycle of precompute_iteration_order and the shape and exits of the walk. Containment / '
+             'are walked (16-row table), the pairing by other_pos, the per-vertex cycle of precompute_iteration_order (scan steps, bounds, the two predicates handed in), that order_events re-sorts completely (every neighbour pair per pass, repeated until a pass swaps nothing), that every loop of the pipeline runs over its whole input, and the shape, start vertex and exits of the walk. Containment / '
              'disjointness / merging of actual rings is run-time geometry and is not decided.',
         note=TB, design='4/C02'),
     'C03': dict(level='other', technique='call-graph SCC incl. drop glue, RefCell guard live-range analysis, sentinel-index dominance, panic-site inventory with ledger',
@@ -81,7 +81,7 @@ CLAIMS = {
         design='4/C12'),
     'C13': dict(level='other', technique=TECH_PROV + ' on loop-body paths',
         text='Decides the bookkeeping every sub-segment goes through: one mutually linked pair per non-collapsed edge with exactly one left flag, the '
-             'four links / inheritance / flag swap of divide_segment, the neighbour-check protocol of the sweep loop on insertion and before removal. '
+             'four links / inheritance / flag swap of divide_segment and that its one-ulp move of the division point happens for exactly corner case 1, the neighbour-check protocol of the sweep loop on insertion and before removal. '
              'Planarity and coverage of actual sub-segments are not decided.',
         note=TB, design='4/C13'),
     'C14': dict(level='other', technique=TECH_TABLE,
@@ -93,12 +93,12 @@ CLAIMS = {
         text='Decides: cmp never returns Equal; over every configuration of coordinate-difference signs, left flags, presence of other events, '
              'orientation sign and operands, cmp(a,b) is the opposite of cmp(b,a) and follows the stated priority, except on the documented residue (same '
              'point, kind, collinear, operand); compare_segments returns Equal only under Rc::ptr_eq and is one decision function of (older, newer) '
-             'negated exactly when swapped; the sweep line, heap and bubble sort consume these orders. Transitivity and agreement with the vertical order '
+             'negated exactly when swapped (its decision list is evaluated against the documented one); inside the residue cmp is never Less in both directions (the re-sorting loop would not terminate); the sweep line, heap and bubble sort consume these orders, and the bubble sort compares every neighbour pair and repeats until a pass swaps nothing. Transitivity and agreement with the vertical order '
              'of real configurations are not decided.',
         note=TB + 'The model of is_below / orient2d sign under argument permutation is checked against the code.', design='4/C15'),
     'C16': dict(level='other', technique=TECH_TABLE + ' with a symbolic model of the local events vector',
         text='Decides the return-code / division-request / edge-type table of possible_intersection (28 cases), the same-point rule (N2 is the listed '
-             'known finding), clamping, endpoint guards, the parameter-range structure of intersection_impl and the exact algebra of the reported point '
+             'known finding), clamping (the clamp and the common bounding box are evaluated on concrete positions), endpoint guards, the crossing / parallel / collinear classification by the two determinants and the parameter-range structure of intersection_impl, and the exact algebra of the reported point '
              '(rational-function identity with the line intersection; helper bodies included). Disjointness classification and accuracy '
              'are numeric and not decided.',
         note=TB, design='4/C16'),
@@ -106,7 +106,7 @@ CLAIMS = {
         text='Decides: length counters change by exactly one exactly on the paths that add/remove/yield an element; code reachable from the &self '
              'lookups moves only Box<Node>/Option<Box<Node>> (never node contents, keys or values) and frees no node, so references handed out stay valid; '
              'comparator is called (query, &node.key) with Less->left / Greater->right in next/prev/insert/splay; next/next_back, min/max, pop_left/right, the '
-             'two arms of splay are mirror images; SplaySet delegates to the like-named SplayTree method; get/get_mut/find_key/remove decide membership by '
+             'two arms of splay are mirror images; SplaySet delegates to the like-named SplayTree method and returns what a sorted set returns as a function of the delegate\'s result (insert = was absent, remove = was present, is_empty = len 0, keys of pairs); a new tree is empty; insert / remove decide at the root only after splaying; get/get_mut/find_key/remove decide membership by '
              'comparator == Equal after splaying for the key and splay stops only on Equal or a missing child; insert, remove, the consuming iterator and '
              'every iteration / the exit of splay keep the in-order sequence of nodes (loop invariant of splay assumed at the head, shown preserved). '
              'Equivalence with a reference sorted map over all '
